@@ -1692,3 +1692,87 @@ Proof.
   intros (S1 & S2 & S3 & S4 & S5 & _) HI Hadv H.
   eapply window_round_WInv; eassumption.
 Qed.
+
+(* ------------------------------------------------------------------ *)
+(* why the adversary cannot do better: inside the window no member of the majority ever
+   answers a (pre-)vote request of a higher term, so the outsiders never gather the
+   quorum of grants that C16_step_term_cases / C16_quiet_run_term show to be the only way
+   to a term above t for a node that runs pre-vote *)
+
+Lemma follower_denies l t hb he (hq : Prop) F m :
+  l <> INVALID_ID -> FInv l t hb he hq F ->
+  (m_type m = MsgRequestVote \/ m_type m = MsgRequestPreVote) -> t < m_term m ->
+  list_eqb (m_context m) CAMPAIGN_TRANSFER = false ->
+  step F m = Ok (F, E_OK).
+Proof.
+  intros Hl (I1 & I2 & I3 & I4 & I5 & I6 & I7 & I8 & I9) Hty Hterm Hctx.
+  apply lease_ignores_vote_requests; try assumption; try congruence; lia.
+Qed.
+
+Lemma leader_denies ids l t hb et c (pend : N -> Prop) L m :
+  l <> INVALID_ID -> LInv ids l t hb et c pend L ->
+  (m_type m = MsgRequestVote \/ m_type m = MsgRequestPreVote) -> t < m_term m ->
+  list_eqb (m_context m) CAMPAIGN_TRANSFER = false ->
+  step L m = Ok (L, E_OK).
+Proof.
+  intros Hl (I1 & I2 & I3 & I4 & I5 & I6 & I7 & I8 & I9 & I10 & _) Hty Hterm Hctx.
+  apply lease_ignores_vote_requests; try assumption; try congruence; lia.
+Qed.
+
+(* ------------------------------------------------------------------ *)
+(* Part 7: example.  Three voters 1 2 3 (the samples of M/RaftProofsC16.v: election
+   timeout 10, heartbeat timeout 2, randomized timeout 15).  Leader 1 and follower 2 are
+   the majority; node 3 is outside and sends, every round, a pre-vote request of term 3
+   to the leader, one of term 7 to the follower, a stale vote request of term 1 to the
+   leader and a vote request of the current term 2 to the follower. *)
+
+Definition xw_F2 : raft := xs_node 2 2 1 Follower 1 (xs_log 3 3) (xs_prs false false).
+
+Definition xw_adv : list (N * msg) :=
+  [(1, xs_prevote_req 3 1 3 3 1 3 1);
+   (2, xs_prevote_req 3 2 7 3 1 3 1);
+   (1, msg_default <| m_type := MsgRequestVote |> <| m_from := 3 |> <| m_to := 1 |> <| m_term := 1 |>);
+   (2, msg_default <| m_type := MsgRequestVote |> <| m_from := 3 |> <| m_to := 2 |> <| m_term := 2 |>
+                   <| m_index := 3 |> <| m_log_term := 1 |>)].
+
+Lemma xw_start : window_start xs_leader [xw_F2].
+Proof.
+  unfold window_start. cbn [map].
+  split; [discriminate|]. split; [discriminate|]. split; [intros [H|[]]; discriminate|].
+  split; [vm_compute; reflexivity|]. split; [vm_compute; reflexivity|].
+  split; [reflexivity|]. split; [reflexivity|]. split; [reflexivity|]. split; [reflexivity|].
+  split; [vm_compute; reflexivity|]. split; [vm_compute; reflexivity|].
+  split; [intros id [<-|[<-|[]]]; vm_compute; discriminate|].
+  split; [reflexivity|].
+  split; [left; intros id [<-|[]]; eexists; split; vm_compute; reflexivity|].
+  constructor; [|constructor].
+  repeat split; try reflexivity; vm_compute; try reflexivity; discriminate.
+Qed.
+
+Lemma xw_adv_ok : Forall (fun tm => adv_ok [2] 1 2 (snd tm)) xw_adv.
+Proof.
+  assert (Hn : ~ In 3 [1; 2]) by (intros [H|[H|[]]]; discriminate).
+  assert (Hnet : forall ty, ty = MsgRequestVote \/ ty = MsgRequestPreVote -> netmsg ty)
+    by (intros ty [->| ->]; repeat split; discriminate).
+  unfold xw_adv. constructor; [|constructor; [|constructor; [|constructor; [|constructor]]]]; cbn [snd].
+  - split; [exact Hn|]. split; [apply Hnet; right; reflexivity|left; reflexivity].
+  - split; [exact Hn|]. split; [apply Hnet; right; reflexivity|left; reflexivity].
+  - split; [exact Hn|]. split; [apply Hnet; left; reflexivity|].
+    right. left. split; [discriminate|vm_compute; reflexivity].
+  - split; [exact Hn|]. split; [apply Hnet; left; reflexivity|].
+    right. right. split; [vm_compute; discriminate|]. split; [reflexivity|discriminate].
+Qed.
+
+Lemma xw_schedule n : adv_schedule xs_leader [xw_F2] (repeat xw_adv n).
+Proof.
+  unfold adv_schedule. apply Forall_forall. intros adv Hadv. apply repeat_spec in Hadv. subst adv.
+  exact xw_adv_ok.
+Qed.
+
+(* thirty rounds = three election timeouts of the leader: the run does not panic; the
+   leader passed three check-quorum boundaries *)
+Lemma xw_run : exists L' F',
+  window_rounds (repeat xw_adv 30) xs_leader [xw_F2] = Ok (L', [F']) /\
+  r_state L' = Leader /\ r_term L' = 2 /\ r_election_elapsed L' = 0 /\
+  r_state F' = Follower /\ r_term F' = 2 /\ r_vote F' = 1 /\ r_leader_id F' = 1.
+Proof. vm_compute. do 2 eexists. repeat split; reflexivity. Qed.
